@@ -109,4 +109,51 @@ theorem deferred_run_fresh (o : WOpts) (ops : List DOp) : ∀ (d : Deferred), d.
                      rw [this]; exact ih2 d hw hc
       simpa [projFresh] using this tl { d with closed := true } hw rfl
 
+/-- The index loop with in-place removal over a list that callbacks may extend while it is walked IS the
+    queue discipline of `specFire`, for every list, every fuel and any nesting of registrations. -/
+theorem fireLoop_eq_specFire : ∀ (fuel : Nat) (kept rest : List PutCb) (fired : List Nat),
+    fireLoop fuel kept.length (kept ++ rest) fired
+      = (kept ++ (specFire fuel rest).1, fired ++ (specFire fuel rest).2) := by
+  intro fuel
+  induction fuel with
+  | zero => intro kept rest fired; simp [fireLoop, specFire]
+  | succ f ih =>
+    intro kept rest fired
+    cases rest with
+    | nil => simp [fireLoop, specFire]
+    | cons cb tl =>
+      have hget : (kept ++ cb :: tl)[kept.length]? = some cb := by simp
+      unfold fireLoop
+      rw [hget]
+      simp only
+      cases hs : cb.spawn with
+      | none =>
+        by_cases ho : cb.once = true
+        · have he : (kept ++ cb :: tl).eraseIdx kept.length = kept ++ tl := by
+            rw [List.eraseIdx_append_of_length_le (by omega)]; simp
+          simp only [ho, ↓reduceIte, he, ih kept tl, specFire, hs]
+          simp
+        · have ho' : cb.once = false := by simpa using ho
+          have e : kept ++ cb :: tl = (kept ++ [cb]) ++ tl := by simp
+          have hl : kept.length + 1 = (kept ++ [cb]).length := by simp
+          simp only [ho', Bool.false_eq_true, ↓reduceIte, specFire, hs]
+          rw [e, hl, ih (kept ++ [cb]) tl]
+          simp
+      | some sp =>
+        obtain ⟨id2, once2⟩ := sp
+        have hnw : ∃ nw : PutCb, nw = { id := id2, once := once2 } := ⟨_, rfl⟩
+        obtain ⟨nw, hnwe⟩ := hnw
+        by_cases ho : cb.once = true
+        · have he : (kept ++ cb :: tl ++ [nw]).eraseIdx kept.length
+              = kept ++ (tl ++ [nw]) := by
+            rw [List.append_assoc, List.eraseIdx_append_of_length_le (by omega)]; simp
+          simp only [ho, ↓reduceIte, ← hnwe, he, ih kept (tl ++ [nw]), specFire, hs]
+          simp
+        · have ho' : cb.once = false := by simpa using ho
+          have e : kept ++ cb :: tl ++ [nw]
+              = (kept ++ [cb]) ++ (tl ++ [nw]) := by simp
+          have hl : kept.length + 1 = (kept ++ [cb]).length := by simp
+          simp only [ho', Bool.false_eq_true, ↓reduceIte, specFire, hs, ← hnwe]
+          rw [e, hl, ih (kept ++ [cb]) (tl ++ [nw])]
+          simp
 end Car
